@@ -6,8 +6,7 @@
   `Prog.run` executes a list of operations and stops at the first inadmissible call or model
   error.
 -/
-import SymmModel.Proofs.ValidFuseF
-import SymmModel.Proofs.ValidLinalg
+import SymmModel.Proofs.ValidMisc
 
 namespace SymmModel
 namespace ValidP
@@ -31,12 +30,14 @@ inductive Op (R : Type) where
   | syncCharges
   | multiplyDiagonal (v : BVec R) (axis : Nat)
   | dropMisaligned (b : Arr R) (axesA axesB : List Nat)
-  | tensordot (b : Arr R) (axesA axesB : List Nat)
+  | tensordot (b : Arr R) (axesA axesB : List Nat) (mode : TdotMode)
+  | matmul (b : Arr R)
   | binary (f : R → R → R) (missing : Missing) (y : Arr R)
   | qrQ (K : Kernels R)
   | qrR (K : Kernels R)
   | svdU (K : Kernels R)
   | svdV (K : Kernels R)
+  | eighV (K : Kernels R)
   | fuse (groups : List (List Nat)) (expandEmpty : Bool)
   | unfuse (axis : Nat)
   | unfuseAll
@@ -64,12 +65,14 @@ def Op.admissible : Op R → Arr R → Bool
   | .syncCharges, _ => true
   | .multiplyDiagonal _ _, _ => true
   | .dropMisaligned b _ _, _ => b.validB
-  | .tensordot b axesA axesB, a => b.validB && (a.fermi == b.fermi) && tdotAdmissibleB a b axesA axesB
+  | .tensordot b axesA axesB _, a => b.validB && (a.fermi == b.fermi) && tdotAdmissibleB a b axesA axesB
+  | .matmul b, a => b.validB && (a.fermi == b.fermi) && matmulAdmissibleB a b
   | .binary _ _ y, x => fitsB x y
   | .qrQ _, _ => true
   | .qrR _, _ => true
   | .svdU _, _ => true
   | .svdV _, _ => true
+  | .eighV _, _ => true
   | .fuse groups _, a => fuseAdmissibleB groups a.ndim
   | .unfuse _, _ => true
   | .unfuseAll, _ => true
@@ -81,6 +84,7 @@ def Op.KernelOk : Op R → Prop
   | .qrR K => QrShapeContract K
   | .svdU K => SvdShapeContract K
   | .svdV K => SvdShapeContract K
+  | .eighV K => EighShapeContract K
   | _ => True
 
 /-- the model call -/
@@ -98,10 +102,11 @@ def Op.apply [Zero R] [Add R] [Mul R] [Neg R] [Conj R] : Op R → Arr R → Exce
   | .syncCharges, a => pure a.syncCharges
   | .multiplyDiagonal v axis, a => pure (SymmModel.multiplyDiagonal a v axis)
   | .dropMisaligned b axesA axesB, a => pure (SymmModel.dropMisaligned a b axesA axesB).1
-  | .tensordot b axesA axesB, a =>
+  | .tensordot b axesA axesB mode, a =>
       if a.fermi then
-        Arr.tensordotF a b (.pair (axesA.map Int.ofNat) (axesB.map Int.ofNat)) .blockwise
-      else tensordotA a b (.pair (axesA.map Int.ofNat) (axesB.map Int.ofNat)) .blockwise
+        Arr.tensordotF a b (.pair (axesA.map Int.ofNat) (axesB.map Int.ofNat)) mode
+      else tensordotA a b (.pair (axesA.map Int.ofNat) (axesB.map Int.ofNat)) mode
+  | .matmul b, a => if a.fermi then a.matmulF b else matmulA a b
   | .binary f missing y, x => do
       let r ← binaryBlockwise (Blk.zipWith f) missing x.blocks y.blocks
       pure { x with blocks := r }
@@ -109,6 +114,7 @@ def Op.apply [Zero R] [Add R] [Mul R] [Neg R] [Conj R] : Op R → Arr R → Exce
   | .qrR K, a => do let (_, r) ← qrA K a; pure r
   | .svdU K, a => do let (u, _, _) ← svdA K a; pure u
   | .svdV K, a => do let (_, _, v) ← svdA K a; pure v
+  | .eighV K, a => do let (_, v) ← eighA K a; pure v
   | .fuse groups expandEmpty, a =>
       if a.fermi then a.fuseF groups .insert expandEmpty else fuseA a groups .insert expandEmpty
   | .unfuse axis, a => if a.fermi then a.unfuseF axis else unfuseA a axis
@@ -199,16 +205,34 @@ theorem Op.apply_valid [Zero R] [Add R] [Mul R] [Neg R] [Conj R] (op : Op R) (a 
     simp only [Op.apply, pure, Except.pure, Except.ok.injEq] at h
     subst h
     exact (dropMisaligned_valid a b axesA axesB hv ((validB_iff b).mp hadm)).1
-  | tensordot b axesA axesB =>
+  | tensordot b axesA axesB mode =>
     simp only [Op.admissible, Bool.and_eq_true, beq_iff_eq] at hadm
     simp only [Op.apply] at h
     split at h
     · rename_i hf
-      exact tensordotF_blockwise_valid a b r axesA axesB hv ((validB_iff b).mp hadm.1.1)
+      exact tensordotF_valid_all mode a b r axesA axesB hv ((validB_iff b).mp hadm.1.1)
         hf (by rw [← hadm.1.2]; exact hf) hadm.2 h
     · rename_i hf
-      exact tensordotA_blockwise_valid a b r axesA axesB hv ((validB_iff b).mp hadm.1.1)
+      exact tensordotA_valid_all mode a b r axesA axesB hv ((validB_iff b).mp hadm.1.1)
         (by simpa using hf) hadm.2 h
+  | matmul b =>
+    simp only [Op.admissible, Bool.and_eq_true, beq_iff_eq] at hadm
+    simp only [Op.apply] at h
+    split at h
+    · rename_i hf
+      exact matmulF_valid a b r hv ((validB_iff b).mp hadm.1.1) hf (by rw [← hadm.1.2]; exact hf)
+        hadm.2 h
+    · rename_i hf
+      exact matmulA_valid a b r hv ((validB_iff b).mp hadm.1.1) (by simpa using hf) hadm.2 h
+  | eighV K =>
+    simp only [Op.apply, bind, Except.bind] at h
+    split at h
+    · cases h
+    · rename_i wv hwv
+      obtain ⟨w, v⟩ := wv
+      simp only [pure, Except.pure, Except.ok.injEq] at h
+      subst h
+      exact eighA_valid K a v w hv hK hwv
   | qrQ K =>
     simp only [Op.apply, bind, Except.bind] at h
     split at h
